@@ -164,6 +164,40 @@ int main(int argc, char** argv) {
                 }
             }
         }
+
+        // formatted histories (INTE / LOGI / CHAR arrays): the real .FUNRST after the whole
+        // history against Model/UnrstFmt.lean
+        {
+            auto protoFmt = [](const A& a) {
+                std::string o;
+                switch (a.kind) {
+                case 'I': o = "I," + vh::hex(padName(a.name)) + ","; if (a.iv.empty()) o += "-"; for (size_t i = 0; i < a.iv.size(); ++i) { if (i) o += ":"; o += std::to_string(a.iv[i]); } break;
+                case 'L': o = "L," + vh::hex(padName(a.name)) + ","; if (a.bv.empty()) o += "-"; for (bool b : a.bv) o += b ? 'T' : 'F'; break;
+                default:  o = "C," + vh::hex(padName(a.name)) + ","; if (a.sv.empty()) o += "-"; for (size_t i = 0; i < a.sv.size(); ++i) { if (i) o += ":"; o += vh::hex(a.sv[i]); } break;
+                }
+                return o;
+            };
+            size_t cnt = 0;
+            for (auto& hn : hs) {
+                if (tier != "thorough" && (cnt++ % 2)) continue;
+                auto h = materialise(hn, rng, true);
+                for (auto& st : h) for (auto& a : st.arrs) {
+                    if (a.kind == 'R') { a.kind = 'I'; a.iv.assign(a.fv.size(), 0); for (size_t i = 0; i < a.iv.size(); ++i) a.iv[i] = (int) (uint32_t) rng.next(); }
+                    if (a.kind == 'D') { a.kind = 'L'; a.bv.assign(a.dv.size(), false); for (size_t i = 0; i < a.bv.size(); ++i) a.bv[i] = rng.coin(); }
+                }
+                fs::remove(rstName(rs, true));
+                bool threw = false;
+                try { for (auto& st : h) writeStepReal(rs, st, true); } catch (const std::exception&) { threw = true; }
+                std::string op = "unrstfmt.run ";
+                for (size_t i = 0; i < h.size(); ++i) {
+                    if (i) op += "|";
+                    op += std::to_string(h[i].n) + "=";
+                    for (size_t j = 0; j < h[i].arrs.size(); ++j) { if (j) op += ";"; op += protoFmt(h[i].arrs[j]); }
+                }
+                sink.emit(op, threw ? "err" : vh::hex(vh::slurp(rstName(rs, true))));
+                sink.count("fmthistory.len" + std::to_string(std::min<size_t>(h.size(), 6)));
+            }
+        }
         // formatted header line length for several counts (the number seekPosition must subtract)
         for (int n : { 0, 1, 9, 10, 999, 1000, 1234, 2000 }) {
             std::string path = outdir + "/tmp/H.FUNRST";
